@@ -1538,6 +1538,34 @@ class SxStr:
     def upper(s):
         return s._map(str.upper)
 
+    def _pad(s, width, fill, how):
+        if isinstance(width, SxInt):
+            width = concretize_small(width, 0, 4096)
+        if isinstance(fill, (SxStr, SxChar)):
+            fill = str_of(fill)._resolve()
+            if len(fill) != 1:
+                raise TypeError("The fill character must be exactly one character long")
+            fill = fill[0]
+        elif not isinstance(fill, str) or len(fill) != 1:
+            raise TypeError("The fill character must be exactly one character long")
+        si = list(s._resolve())
+        pad = max(0, width - len(si))
+        if how == "r":
+            return _mkstr([fill] * pad + si)
+        if how == "l":
+            return _mkstr(si + [fill] * pad)
+        left = pad // 2 + (pad & width & 1)          # CPython's str.center rounding
+        return _mkstr([fill] * left + si + [fill] * (pad - left))
+
+    def rjust(s, width, fill=" "):
+        return s._pad(width, fill, "r")
+
+    def ljust(s, width, fill=" "):
+        return s._pad(width, fill, "l")
+
+    def center(s, width, fill=" "):
+        return s._pad(width, fill, "c")
+
     def zfill(s, width):
         if isinstance(width, SxInt):
             width = concretize_small(width, 0, 4096)
